@@ -96,17 +96,24 @@ class Code3(Code2):
             line_diff = line_number - prev_line_number
             prev_offset = offset
             prev_line_number = line_number
-            while offset_diff >= 256:
+            while offset_diff > 255:
                 co_lnotab += bytearray([255, 0])
                 offset_diff -= 255
-            while line_diff >= 256:
-                co_lnotab += bytearray([0, 255])
-                line_diff -= 255
-            if 0 <= line_diff <= 256:
-                # FIXME: should warn about dropping off a line number
-                co_lnotab += bytearray([offset_diff, line_diff])
+            # A line increment applies after the offset increment of its
+            # entry, so the offset is advanced by the first entry.  Line
+            # increments are kept within -128..127: that reads the same
+            # whether increments are taken as signed (3.6+) or unsigned.
+            while line_diff > 127:
+                co_lnotab += bytearray([offset_diff, 127])
+                offset_diff = 0
+                line_diff -= 127
+            while line_diff < -128:
+                co_lnotab += bytearray([offset_diff, 0x80])
+                offset_diff = 0
+                line_diff += 128
+            co_lnotab += bytearray([offset_diff, line_diff & 0xFF])
 
-        self.co_lnotab = co_lnotab
+        self.co_lnotab = bytes(co_lnotab)
 
     def freeze(self):
         for field in "co_consts co_names co_varnames co_freevars co_cellvars".split():
